@@ -45,6 +45,9 @@ public:
     void initialize_search_space(const Eigen::Ref<const Matrix>& initial_vectors)
     {
         m_basis_vectors = initial_vectors;
+        // The Rayleigh-Ritz step needs an orthonormal basis; a caller-supplied
+        // initial space does not have to be one
+        twice_is_enough_orthogonalisation(m_basis_vectors);
         m_op_basis_product = Matrix(initial_vectors.rows(), 0);
     }
 
